@@ -23,7 +23,11 @@ ALPHA_PRE = 'all(c in ALPHA for c in s)'
 MODS = dict(DT_Var.modifiers)          # name -> function (live objects of /repo/src)
 MARKED = ['url_quote', 'url_quote_plus', 'url_unquote', 'url_unquote_plus', 'lower', 'upper', 'capitalize',
           'spacify', 'thousands_commas', 'sql_quote']
-AFTER_BR = ['lower', 'upper', 'capitalize', 'spacify', 'thousands_commas', 'sql_quote']
+_LIVE = [n for n, f in DT_Var.modifiers]
+# stages that can run on the plain, already escaped output of newline_to_br: those listed after it in the LIVE modifiers order
+_AFTER = _LIVE[_LIVE.index('newline_to_br') + 1:]
+AFTER_BR = [n for n in _AFTER if n not in ('url_unquote', 'url_unquote_plus')]
+BR_THEN_UNQUOTE = [n for n in ('url_unquote', 'url_unquote_plus') if n in _AFTER]
 CASEY = {'lower', 'upper', 'capitalize'}
 
 
@@ -223,7 +227,7 @@ for _m in MARKED:
                           data='content s of a TaintedString, len <= %d%s' % (N, ', alphabet %r' % ALPHA if _m in CASEY else ', any code points'),
                           selectors='pipeline stage DT_Var.%s' % _m,
                           outside='contents longer than %d; unrestricted Unicode for case-mapping stages' % N))
-OBLIGATIONS.append(Ob('stage_newline_to_br', ob_br, ['len(s) <= %d' % N], timeout=tier(150, 600),
+OBLIGATIONS.append(Ob('stage_newline_to_br', ob_br, ['len(s) <= %d' % N], timeout=tier(450, 900),
                       data='s any code points len <= %d' % N, selectors='newline_to_br (ends the marked phase)'))
 OBLIGATIONS.append(Ob('stage_final_quoted', ob_quoted, ['len(s) <= %d' % N], timeout=tier(100, 400), data='s len <= %d' % N,
                       selectors='TaintedString.quoted()'))
@@ -234,9 +238,9 @@ OBLIGATIONS.append(Ob('stage_strfunc_wrapper', ob_strfunc, ['len(s) <= %d' % N],
                       selectors='DT_Util.StringFunctionWrapper(str.strip)'))
 for _m in AFTER_BR:
     _pre = ['len(s) <= %d' % N] + ([ALPHA_PRE] if _m in CASEY else [])
-    OBLIGATIONS.append(Ob('afterbr_nogrow_' + _m, make_after_br(_m), _pre, timeout=tier(150, 600),
+    OBLIGATIONS.append(Ob('afterbr_nogrow_' + _m, make_after_br(_m), _pre, timeout=tier(450, 900),
                           data='plain s len <= %d' % N, selectors='stage %s applied to the plain output of newline_to_br' % _m))
-for _m in ('url_unquote', 'url_unquote_plus'):
+for _m in BR_THEN_UNQUOTE:
     OBLIGATIONS.append(Ob('br_then_' + _m, make_br_unquote(_m), ['0 <= k%d <= 4' % i for i in (1, 2, 3, 4)], timeout=tier(200, 400),
                           data='-', selectors="marked content w = 4 characters, each selected from {'%%','3','C','<','a'}, containing '<' "
                           '(625 concrete strings enumerated by path forking); newline_to_br followed by the trailing %s entry of '
